@@ -175,7 +175,7 @@ Lemma fold_mono2 {A} (P : shard -> Prop) (f : shard -> A -> shard) l :
   forall s, inv s -> P s -> inv (fold_left f l s) /\ P (fold_left f l s) /\ (msize (fold_left f l s) <= msize s)%nat.
 Proof.
   intros H. induction l as [|a r IH]; intros s I Ps; simpl; auto.
-  destruct (H s a I Ps) as (I1 & P1 & L1). destruct (IH _ I1 P1) as (I2 & P2 & L2). repeat split; auto. lia.
+  destruct (H s a I Ps) as (I1 & P1 & L1). destruct (IH _ I1 P1) as (I2 & P2 & L2). split; [exact I2|]. split; [exact P2|lia].
 Qed.
 
 Section PassInv.
@@ -186,7 +186,7 @@ Hypothesis Pdone : forall s, P s -> P (set_done s (sh_cur s)).
 
 Lemma P_expired_one s a : inv s -> P s -> inv (expired_one s a) /\ P (expired_one s a) /\ (msize (expired_one s a) <= msize s)%nat.
 Proof.
-  intros I Ps. destruct (expired_one_mono s a I) as [I1 L1]. repeat split; auto.
+  intros I Ps. destruct (expired_one_mono s a I) as [I1 L1]. split; [exact I1|]. split; [|exact L1].
   destruct a as [c' y]. unfold expired_one.
   destruct (view_locked (sh_meta s) c' y); auto.
   destruct ((view_exists (sh_meta s) true c' y =? v_ok) || (view_exists (sh_meta s) true c' y =? v_ecparent)); auto.
@@ -195,12 +195,12 @@ Qed.
 Lemma P_delete_bin s (bin : cid * list oid) : inv s -> P s ->
   inv (delete_objs s (fst bin) (snd bin)) /\ P (delete_objs s (fst bin) (snd bin)) /\
   (msize (delete_objs s (fst bin) (snd bin)) <= msize s)%nat.
-Proof. intros I Ps. repeat split; auto using delete_objs_inv. now apply delete_objs_size. Qed.
+Proof. intros I Ps. split; [now apply delete_objs_inv|]. split; [now apply Pdel|now apply delete_objs_size]. Qed.
 
 Lemma P_drop_or_delete s bin : inv s -> P s ->
   inv (drop_or_delete s bin) /\ P (drop_or_delete s bin) /\ (msize (drop_or_delete s bin) <= msize s)%nat.
 Proof.
-  intros I Ps. destruct (drop_or_delete_mono s bin I) as [I1 L1]. repeat split; auto.
+  intros I Ps. destruct (drop_or_delete_mono s bin I) as [I1 L1]. split; [exact I1|]. split; [|exact L1].
   destruct bin as [c' ids]. unfold drop_or_delete. cbn [fst snd]. destruct ids; [apply (Pdrop s c' I Ps)|now apply Pdel].
 Qed.
 
@@ -328,7 +328,7 @@ Lemma garbage_loop_quiet bs limit : forall num,
 Proof.
   induction bs as [|[c0 b0] r IH]; intros num H; simpl in *; auto.
   apply andb_true_iff in H as [H1 H2]. unfold quiet_bucket in H1. apply andb_true_iff in H1 as [Hc Hg].
-  destruct (cgc b0); [discriminate|]. destruct (garb b0); [|discriminate]. simpl. rewrite firstn_nil. auto.
+  destruct (cgc b0); [discriminate|]. destruct (garb b0); [|discriminate]. simpl. rewrite Coq.Lists.List.firstn_nil. auto.
 Qed.
 
 Lemma view_garbage_gfree m limit : garbage_free m = true -> view_garbage m limit = [].
